@@ -85,8 +85,39 @@ fn compare(rep: &mut Report, prefix: &str, report_frames: bool, exp: &Class, obs
 
 fn code_methods(c: &Class) -> Vec<&Code> { c.methods.iter().filter_map(|m| m.code.as_ref()).collect() }
 
+/// bumped whenever a worker starts or finishes a write; the watchdog turns a write that never returns into INCONCLUSIVE
+static PROGRESS: std::sync::atomic::AtomicU64 = std::sync::atomic::AtomicU64::new(0);
+static DONE: std::sync::atomic::AtomicBool = std::sync::atomic::AtomicBool::new(false);
+
+/// A writer that loops forever would block the check. That is not an observation the oracle can judge (a time-out is never
+/// a violation), so after 300 s without any write starting or finishing the run ends as inconclusive.
+fn start_watchdog() {
+    use std::sync::atomic::Ordering::Relaxed;
+    let limit: u64 = std::env::var("C02_WATCHDOG_S").ok().and_then(|s| s.parse().ok()).unwrap_or(300);
+    std::thread::spawn(move || {
+        let (mut last, mut since) = (PROGRESS.load(Relaxed), std::time::Instant::now());
+        loop {
+            std::thread::sleep(std::time::Duration::from_secs(2));
+            if DONE.load(Relaxed) { return; }
+            let now = PROGRESS.load(Relaxed);
+            if now != last { last = now; since = std::time::Instant::now(); }
+            else if since.elapsed().as_secs() >= limit {
+                println!("INCONCLUSIVE property=C02 reason=no write started or finished for {limit} s (a call into the writer may not terminate); no verdict");
+                std::process::exit(2);
+            }
+        }
+    });
+}
+
 /// The core of the monitor: write `tree`, validate, compare, check the event log, read again.
 fn judge_tree(rep: &mut Report, tree: &ClassFile, sub: &Subject) -> Outcome {
+    PROGRESS.fetch_add(1, std::sync::atomic::Ordering::Relaxed);
+    let out = judge_tree_inner(rep, tree, sub);
+    PROGRESS.fetch_add(1, std::sync::atomic::Ordering::Relaxed);
+    out
+}
+
+fn judge_tree_inner(rep: &mut Report, tree: &ClassFile, sub: &Subject) -> Outcome {
     let mut out = Outcome::default();
     let mut exp = project::project(tree);
     project::normalise(&mut exp);
@@ -403,6 +434,7 @@ fn main() {
     let replay = load_replay(&mut ctx);
     let mut rep = Report::new();
     self_checks();
+    start_watchdog();
 
     // ---- workload 1: large-method scenarios (first: every coverage obligation is met by this block)
     let (specs, specs_more) = plan(ctx.tier);
@@ -487,6 +519,7 @@ fn main() {
         meta.oblige("at least 150 opcode families in the generated classes, locals in all three index classes", rep.seen_n("insn") >= 150 && rep.seen_n("local") >= 3);
         meta.oblige("at most 10% of the scenarios could not be generated or read", (rep.get("scenario.generation_failed") + rep.get("scenario.reader_changed_the_model")) * 10 <= (specs.len() + specs_more.len()) as u64 && rep.get("scenario.tree_equals_model") > 0);
     }
+    DONE.store(true, std::sync::atomic::Ordering::Relaxed);
     std::process::exit(finish(&ctx, rep, meta));
 }
 
